@@ -124,7 +124,7 @@ def main(run):
     rows = r.ex("PROG")
     run.log(f"TLC: {len(rows)} specified programs")
     rows.sort(key=lambda x: json.dumps(x, sort_keys=True))
-    cap = 12000 if q else 400000
+    cap = 8000 if q else 400000
     if len(rows) > cap:
         short = [x for x in rows if len(x["ks"]) <= 2]
         rest = [x for x in rows if len(x["ks"]) > 2]
